@@ -603,7 +603,9 @@ EX_ALPHA = [("run", [0], [0]), ("run", [0, 1], [0, 1]), ("session", [0], [0], {0
             ("step", {0: {"pts": {1: 8}}}), ("step", {1: {"consts": {1: 3}}}), ("rest", [0], [1], {1: {"pts": {0: 4}, "stop": 3}}),
             ("evalbase",), ("add", 2, {"pts": {0: 6}, "start": 1}),
             # wave 2
-            ("reset", 0), ("session", [0], [0], {0: {"consts": {1: 9}}}), ("add", 4, {})]
+            ("reset", 0), ("session", [0], [0], {0: {"consts": {1: 9}}}), ("add", 4, {}),
+            # wave 5: re-registration of an existing name with a different dictionary
+            ("add", 0, {"consts": {2: 6}})]
 EX_CORE = [1, 2, 4, 6, 9, 10, 11]          # the state-changing letters used for the longest histories
 
 
@@ -652,6 +654,22 @@ def probe():
                                   A.constants is not B.constants and A.points is not B.points)
     finally:
         b.destroy()
+    # re-registration under a known name: a new clone, nothing of the old one survives
+    b = bptk()
+    try:
+        b.register_scenario_manager({"m0": {"model": base}})
+        b.register_scenarios(scenarios={"s0": {"constants": {"c0": 9.0}, "points": {"p0": pts_val(8)}, "runspecs": {"stoptime": 3.0}}}, scenario_manager="m0")
+        b.run_scenarios(scenarios=["s0"], scenario_managers=["m0"], equations=list(EQS), series_names={}, return_format="dict")
+        old = b.get_scenario("m0", "s0")
+        old_model = old.model
+        b.register_scenarios(scenarios={"s0": {}}, scenario_manager="m0")
+        new = b.get_scenario("m0", "s0")
+        b.run_scenarios(scenarios=["s0"], scenario_managers=["m0"], equations=list(EQS), series_names={}, return_format="dict")
+        # (identity, constants and run specs only: the points table is the business of `cloneOwnsPoints`)
+        facts["reregFreshClone"] = (new.model is not old_model and new.model.equations is not old_model.equations and
+                                    int(new.model.equations["c0"](0.0)) == DEF_CONST[0] and int(new.model.stoptime) == DEF_RS[1])
+    finally:
+        b.destroy()
     # arrayed elements
     try:
         m = Model(starttime=0.0, stoptime=2.0, dt=1.0, name="arr")
@@ -674,32 +692,42 @@ def probe():
 
 def gen_lean(f):
     tf = lambda x: "true" if x else "false"
-    if f["cloneOwnsPoints"] and f["mergeOwnsDict"]:
-        body = ("theorem holds : C06_full cfg := C06_full_of_good cfg (by decide) (by decide)\n#print axioms holds\n")
+    good = f["cloneOwnsPoints"] and f["mergeOwnsDict"] and f["reregFreshClone"]
+    if good:
+        body = ("theorem holds : C06_full cfg := C06_full_of_good cfg (by decide) (by decide) (by decide)\n#print axioms holds\n"
+                "theorem reregistration (b : Base) (pre mid post : List Op) (i m m' : Nat) (d d' : Dict) :\n"
+                "    view (exec cfg b (pre ++ [Op.add i m d] ++ mid ++ [Op.add i m' d'] ++ post)) i =\n"
+                "    (soloExec b i ((pre ++ [Op.add i m d] ++ mid ++ [Op.add i m' d'] ++ post).filter (relevant i))).s :=\n"
+                "  C06_reregistration cfg (by decide) (by decide) (by decide) b pre mid post i m m' d d'\n#print axioms reregistration\n")
     elif not f["cloneOwnsPoints"]:
         body = ("theorem violated : ¬ C06_full cfg := C06_witness_shared_points cfg (by decide)\n#print axioms violated\n")
-    else:
+    elif not f["mergeOwnsDict"]:
         body = ("theorem violated : ¬ C06_full cfg := C06_witness_shared_base_dict cfg (by decide)\n#print axioms violated\n")
+    else:
+        body = ("theorem violated : ¬ C06_full cfg := C06_witness_reused_clone cfg (by decide)\n#print axioms violated\n")
     # what still holds for the probed configuration, whatever was found
-    if f["mergeOwnsDict"]:
+    if f["mergeOwnsDict"] and f["reregFreshClone"]:
         body += ("theorem partial_nopoints (b : Base) (ops : List Op) (h : ∀ op ∈ ops, ptsFree op = true) :\n"
                  "    (∀ i, view (exec cfg b ops) i = (soloExec b i (ops.filter (relevant i))).s) ∧ baseView b (exec cfg b ops) = baseAlone b ops :=\n"
-                 "  C06_partial_nopoints cfg (by decide) b ops h\n#print axioms partial_nopoints\n"
+                 "  C06_partial_nopoints cfg (by decide) (by decide) b ops h\n#print axioms partial_nopoints\n"
                  "theorem partial_consts (b : Base) (ops : List Op) :\n"
                  "    (∀ i, (view (exec cfg b ops) i).map Solo.erase = ((soloExec b i (ops.filter (relevant i))).s).map Solo.erase) ∧\n"
                  "    (baseView b (exec cfg b ops)).erase = (baseAlone b ops).erase :=\n"
-                 "  C06_partial_consts cfg (by decide) b ops\n#print axioms partial_consts\n")
-    if f["cloneOwnsPoints"]:
+                 "  C06_partial_consts cfg (by decide) (by decide) b ops\n#print axioms partial_consts\n")
+    if f["cloneOwnsPoints"] and f["reregFreshClone"]:
         body += ("theorem partial_nobase (b : Base) (ops : List Op) (h : ∀ op ∈ ops, baseFree op = true) :\n"
                  "    (∀ i, view (exec cfg b ops) i = (soloExec b i (ops.filter (relevant i))).s) ∧ baseView b (exec cfg b ops) = baseAlone b ops :=\n"
-                 "  C06_partial_nobase cfg (by decide) b ops h\n#print axioms partial_nobase\n")
+                 "  C06_partial_nobase cfg (by decide) (by decide) b ops h\n#print axioms partial_nobase\n")
     return ("import Bptk.Props.C06\n/-! GENERATED by harness/props/c06.py from /repo on every run — do not edit. -/\n"
             "namespace Bptk.C06.Gen\n"
             f"def cfg : Cfg := {{ cloneOwnsPoints := {tf(f['cloneOwnsPoints'])}, cloneOwnsElements := {tf(f['cloneOwnsElements'])}, "
-            f"mergeOwnsDict := {tf(f['mergeOwnsDict'])} }}\n" + body + "end Bptk.C06.Gen\n")
+            f"mergeOwnsDict := {tf(f['mergeOwnsDict'])}, reregFreshClone := {tf(f['reregFreshClone'])} }}\n" + body + "end Bptk.C06.Gen\n")
 
 
 WITNESS = [("regmgr", 0, {}, {}), ("add", 0, {}), ("add", 1, {}), ("session", [0], [0], {}), ("step", {0: {"pts": {0: 7}}}), ("run", [0], [1])]
+# Lean `witnessReregOps`: a name registered with own constants / points / stop time, run, registered again without them, run
+WITNESS_REREG = [("regmgr", 0, {}, {}), ("add", 0, {"consts": {0: 9}, "pts": {0: 7}, "stop": 3}), ("run", [0], [0]), ("add", 0, {}), ("run", [0], [0]),
+                 ("session", [0], [0], {}), ("step", {0: {"consts": {1: 4}, "pts": {1: 8}}}), ("add", 0, {"consts": {2: 5}}), ("run", [0], [0])]
 # Lean `witnessMergeOps` / `witnessLateOps`: base constants, siblings without own dictionaries, re-parameterise one, run / register another
 WITNESS_MERGE = [("regmgr", 0, {0: 5}, {1: 3}), ("add", 0, {}), ("add", 1, {}), ("session", [0], [0], {0: {"consts": {0: 9}, "pts": {1: 4}}}),
                  ("run", [0], [1]), ("add", 2, {}), ("run", [0], [2])]
@@ -741,7 +769,8 @@ def process_chunk(arg):
     Self-contained (also the entry point of the worker processes of the thorough tier)."""
     hs, facts = arg
     quiet_bptk_logging()
-    req = [f"cfg {1 if facts['cloneOwnsPoints'] else 0} {1 if facts['cloneOwnsElements'] else 0} {1 if facts['mergeOwnsDict'] else 0}"]
+    req = [f"cfg {1 if facts['cloneOwnsPoints'] else 0} {1 if facts['cloneOwnsElements'] else 0} {1 if facts['mergeOwnsDict'] else 0} "
+           f"{1 if facts['reregFreshClone'] else 0}"]
     real = ["ok"]
     first, kinds, stats_all, bounds, cases = {}, {}, {"reads": 0, "reads_checked": 0}, [], []
     for ops in hs:
@@ -797,7 +826,7 @@ def _run(chk):
     ok, why = chk.prove(gen_lean(facts))
     chk.cov["trusted_base"] = [
         "Lean 4.33 kernel; axioms propext, Classical.choice, Quot.sound (audited per run via #print axioms)",
-        "hand-written heap machine lean/Bptk/Core/C06.lean of register_scenario_manager / register_scenarios (add_scenarios' merge of base_constants / base_points with explicit dictionary identity, get_cloned_model, SimulationScenario.__init__) / SdRunner._run_scenarios / run_scenario_step / configure_settings / REST /run settings / reset_scenario_cache; tied to the code by the three probes and by the correspondence run",
+        "hand-written heap machine lean/Bptk/Core/C06.lean of register_scenario_manager / register_scenarios (add_scenarios' merge of base_constants / base_points with explicit dictionary identity, get_cloned_model, SimulationScenario.__init__) / SdRunner._run_scenarios / run_scenario_step / configure_settings / REST /run settings / reset_scenario_cache; tied to the code by the four probes and by the correspondence run",
         "the numeric simulation is uninterpreted (results = function of effective settings read through the heap + memo content); the harness checks the numbers against freshly built real models",
         "composite operations (run of several scenarios, begin_session, run_step, POST /run) are linearised by the harness into per-scenario model operations in the order of the Python loops",
     ]
@@ -806,7 +835,7 @@ def _run(chk):
                        "nobody edits the base model object or a clone's elements directly (the property quantifies over scenario operations; `element[k] = v` on a clone writes the shared `_elements` table and is outside the alphabet)",
                        "tree carries fixes/C07-scenario-points-keep-table (the model describes SimulationScenario.__init__ merging, not replacing, the points table)"]
     rng = chk.rng.fork("c06")
-    hs = [WITNESS, WITNESS_MERGE]
+    hs = [WITNESS, WITNESS_MERGE, WITNESS_REREG]
     if chk.quick:
         ex, na = exhaustive_histories(2)
         ex_desc = f"all histories of length 2 over the {na}-letter alphabet"
@@ -855,6 +884,8 @@ def _run(chk):
         chk.add_finding(key, f"after {small!r}: {vv[0][2] if vv else v[2]}", {"ops": small, "violation": (vv[0] if vv else v)})
     if not facts["cloneOwnsPoints"] and "cross-scenario-leak" not in first and "base-model-leak" not in first:
         chk.add_finding("cross-scenario-leak", "probe: change_points on one clone changes its sibling / the base model", {"ops": WITNESS})
+    if not facts["reregFreshClone"] and "own-settings" not in first and "result-mismatch" not in first:
+        chk.add_finding("own-settings", "probe: a scenario registered again under its name keeps the clone (and what was written into it) of its previous registration", {"ops": WITNESS_REREG})
     if not facts["mergeOwnsDict"] and "cross-scenario-leak" not in first and "base-dict-leak" not in first:
         chk.add_finding("cross-scenario-leak", "probe: configure_settings on one scenario without own dictionaries rewrites the manager's base dictionaries / its siblings", {"ops": WITNESS_MERGE})
     if not ok:
